@@ -603,6 +603,41 @@ func checkComponentRoundTrip(w *World, r *Report) {
 				r.Fail("comp.roundtrip", name, "serialiser output", fm.Pos(), "the serialised octets have no fixed length", nil)
 				continue
 			}
+			// comp.accepts: the serialiser must not refuse a well-formed value.  Where the specification
+			// gives the range (TS 24.501 9.11.4.13: a port range has low limit <= high limit, a flow label
+			// is 20 bits) that range must be accepted, for all values in it.
+			{
+				field := func(name string) (BV, bool) {
+					for i, p := range paths {
+						if p == "."+name {
+							return orig[i], true
+						}
+					}
+					return BV{}, false
+				}
+				var wellFormed *Node
+				what := ""
+				if lo, ok1 := field("LowLimit"); ok1 {
+					if hi, ok2 := field("HighLimit"); ok2 {
+						wellFormed, what = it.T.Not(it.ult(hi, lo)), "a port range with low limit <= high limit (equal limits included)"
+					}
+				}
+				if lb, okL := field("Label"); okL && strings.Contains(n, "FlowLabel") {
+					wellFormed, what = it.ult(lb, it.constBV(1<<20, lb.W)), "a flow label below 2^20 (the field is 20 bits wide)"
+				}
+				if wellFormed != nil {
+					r.Site("comp.accepts")
+					bad := it.T.And(wellFormed, it.T.Not(n1))
+					if it.Premise != nil {
+						bad = it.T.And(it.Premise, bad)
+					}
+					if it.T.Equiv(bad, it.T.zero) {
+						r.OK("comp.accepts")
+					} else {
+						r.Fail("comp.accepts", name, "well-formed value refused", fm.Pos(), "MarshalBinary returns an error for "+what, nil)
+					}
+				}
+			}
 			it.AndPremise(n1)
 			b, rb := it.SymbolicObj("b")
 			st.mem[b] = map[string]Value{}
